@@ -282,6 +282,7 @@ def body_factory(name, pattern, scenario=None, y_factors=True, T=3):
                             v = interp_spec(env, list(st), list(sy_vals), t)
                         v = v * (data[(pname, pop.name)][2] * data[(pname, pop.name)][3] if (pname, pop.name) in data else 1.0)
                     elif isinstance(fcn, str) and fcn.strip():
+                        uses_flow = False
                         if fcn.startswith(("SRC_POP_AVG", "TGT_POP_AVG", "SRC_POP_SUM", "TGT_POP_SUM")):
                             v = aggregation_spec(env, am, m, ps, fcn, pop, spec, ti)
                         else:
@@ -297,6 +298,15 @@ def body_factory(name, pattern, scenario=None, y_factors=True, T=3):
                                     vals[dep] = mr.comp_val(am, pop.comp_lookup[dep], ti)
                                 elif dep in pop.charac_lookup:
                                     vals[dep] = charac_spec(env, am, pop.charac_lookup[dep], ti)
+                                elif "___" in dep:
+                                    # flow reference par:flow / src:dst / :dst / src: -> annualised sum over every matching link of the population
+                                    a, b = dep.split("___")
+                                    tot = 0.0
+                                    for l in pop.links:
+                                        if (b == "flow" and l.parameter is not None and l.parameter.name == a) or (b != "flow" and (a == "" or l.source.name == a) and (b == "" or l.dest.name == b)):
+                                            tot = tot + mr.link_val(am, l, ti) / m.dt
+                                    vals[dep] = tot
+                                    uses_flow = True
                                 elif dep in afp.supported_functions:
                                     continue
                                 else:
@@ -313,6 +323,8 @@ def body_factory(name, pattern, scenario=None, y_factors=True, T=3):
                         continue
                     v = clip_spec(env, v, lo, hi)
                     spec[(pname, pop.name)] = v
+                    if isinstance(fcn, str) and fcn.strip() and not in_scen and uses_flow and ti == len(tvec) - 1:
+                        continue  # no flows are computed at the last time index
                     env.claim("value|%s|%s|t%d" % (pname, pop.name, ti), env.eq(mp.vals[ti], v), key="par_value[%s]" % pname, extra_axioms=ax)
         for k, g in enumerate(env.nonfinite_guards()):
             env.assume(~g if env.symbolic else True, "characteristic with zero denominator and non-zero numerator excluded (finiteness, C02/C07)") if False else None
@@ -406,6 +418,7 @@ def specs(tier):
     out.append(("pipeline[M2;three]", dict(name="M2", pattern="three")))
     out.append(("pipeline[M12;two_inside]", dict(name="M12", pattern="two_inside")))
     out.append(("pipeline[M11;assumption]", dict(name="M11", pattern="assumption")))
+    out.append(("pipeline[M10F;assumption;functions of flows]", dict(name="M10F", pattern="assumption")))
     if tier != "quick":
         out.append(("pipeline[M11;two_inside]", dict(name="M11", pattern="two_inside")))
         out.append(("pipeline[M10;one_year;T=4]", dict(name="M10", pattern="one_year", T=4)))
